@@ -577,6 +577,7 @@ func run(c *common.Ctx) *common.Result {
 		}
 	}
 	runAlias(c, res)
+	runMultiSwitch(c, res)
 	res.Add("pool_size", int64(n))
 	find := func(desc string) int {
 		for i, e := range p {
@@ -676,6 +677,22 @@ func replay(c *common.Ctx, path string) int {
 	if _, _, err := common.ReadReplay(path, &rc); err != nil {
 		fmt.Println("cannot read replay:", err)
 		return 2
+	}
+	if rc.Law == "multi-switch" {
+		var sw swReplay
+		if _, _, err := common.ReadReplay(path, &sw); err != nil {
+			fmt.Println("cannot read replay:", err)
+			return 2
+		}
+		ab, _ := evalForm("var", fEq, sw.A, sw.B)
+		ac, _ := evalForm("var", fEq, sw.A, sw.C)
+		cs, d := swOne(sw.Form, sw.A, sw.B, sw.C, ab, ac)
+		if cs == "" {
+			fmt.Println("replay: holds")
+			return 0
+		}
+		fmt.Println(cs + "\n" + d + "\nreplay: still violated")
+		return 1
 	}
 	a, b := entry{rc.A, rc.AC}, entry{rc.B, rc.BC}
 	if strings.HasPrefix(rc.Law, "alias:") {
